@@ -434,7 +434,13 @@ def execute(trace, env=None):
                 o.obj.to_dict()
                 log.add('actor%d' % j, 'to_dict')
         except Exception as ex:
-            if o.changed or (o.copied and k in ('finish', 'add')):
+            if o.changed or (o.copied and k in ('finish', 'add')) or \
+                    k in ('write_books', 'to_dict') or \
+                    (k in ('calc', 'call') and si in refs and
+                     refs[si] is None):
+                # not judged: interference on a changed copy; what write /
+                # to_dict themselves do (C16 / C09); a calculation that a
+                # fresh object of the lineage refuses in the same way
                 stats['ignored_errors'] += 1
                 log.add('actor%d' % j, k + '-raised', err=type(ex).__name__)
                 continue
